@@ -12,7 +12,8 @@ def main():
     importlib.import_module("contracts." + mod)
     w = World()
     for name, u in REGISTRY.items():
-        if len(sys.argv) > 2 and name not in sys.argv[2:]:
+        sel = [a for a in sys.argv[2:] if not a.startswith("-")]
+        if sel and name not in sel:
             continue
         res = verify_unit(w, u, {"timeout_ms": 10000})
         print(f"== {name}: paths={res.paths} ended={res.ended} oblig={len(res.obligs)} "
